@@ -15,6 +15,7 @@ CHECK = {
         "value_on_threshold", "value_one_ulp_above", "value_one_ulp_below", "value_just_outside_band",
         "scale_tiny_subnormal", "scale_huge",
         "seq_timeout_then_evaluate", "seq_error_low_and_high", "seq_multi_step",
+        "seq_near_duplicate_consecutive", "seq_same_value_again", "seq_signed_zero_flip", "seq_adjacent_value",
         "status_lists_random", "status_lists_length_20",
         "report_append", "append_duplicate_keys", "append_chain", "append_20_or_more_diagnostics"],
     "required_oracles": [
@@ -37,13 +38,14 @@ CHECK = {
             "from moderate, subnormal and huge ranges, epsilon 0 in 20%) so that the thresholds are exactly representable, or "
             "generic (log-uniform magnitudes 1e-6..1e6, subnormal, near the type's maximum); values are the threshold itself, "
             "nextafter on either side, 2..4 ulps off, grid neighbours, (generic regime) 8.5..1e4 eps*max(|t|,|e|) off i.e. just outside "
-            "the ambiguity band, the target, far values, 0 and +-max; int operands keep "
+            "the ambiguity band, the target, far values, 0 and +-max; with probability 0.35 the next value of a sequence is instead a near-duplicate of the "
+            "previous one (same value again, the other signed zero, nextafter up/down, previous +- a log-spaced delta, +-0); int operands keep "
             "|target| <= 2^30, epsilon < 2^30; non-trivial = a threshold sequence with at least one value on / within 4 ulps "
-            "/ within 1e4 eps*max of a threshold or an evaluation after a timeout, a status list longer than 4 with >= 2 distinct statuses, an "
+            "/ within 1e4 eps*max of a threshold or an evaluation after a timeout or a near-duplicate successor, a status list longer than 4 with >= 2 distinct statuses, an "
             "append chain of >= 2 operands or with duplicate keys (none of which the unit tests contain)",
     "level_text": "exploration, with an exhaustive part: the status algebra (worse over all 16 pairs and 64 triples, "
                   "worseStatus and allOK over all 340 lists of length <= 4) is enumerated completely on every run; the real "
-                  "check-up objects are then driven through 3e5 (quick) / 5e7 (thorough) generated cases -- about 1e6 / 1.6e8 "
+                  "check-up objects are then driven through 1e6 (quick) / 5e7 (thorough) generated cases -- about 3.2e6 / 1.6e8 "
                   "threshold evaluations in sequences mixed with timeouts, concentrated on the thresholds and their "
                   "nextafter neighbours for double, float and int -- and after every step the returned status, the stored "
                   "status, the message, and the info entry are compared with the real-number predicate of the statement "
